@@ -24,14 +24,15 @@ Definition norm6 (v : V6 T) : T := sqrt_ O (dot6 O v v).
 Definition tw_v (S : V6 T) : V3 T := let '(v0,v1,v2,_,_,_) := S in (v0,v1,v2).
 Definition tw_w (S : V6 T) : V3 T := let '(_,_,_,w0,w1,w2) := S in (w0,w1,w2).
 
-(* vectors.unitvec:   n = norm(v);  if n > 10*_eps: return v / n  else: return None   (100*_eps before fix d900630;
-   the value is a parameter, regenerated from the source) *)
+(* vectors.unitvec:   n = norm(v);  if n >= 10*_eps: return v / n  else: return None
+   (`n > 100*_eps` originally, `n > 10*_eps` after fix d900630, `>=` -- the complement of iszerovec -- after 4dbd011;
+   the value is a parameter, regenerated from the source; the operator is tied by the bridge theorems) *)
 Definition unitvec_m (thr : T) (v : V3 T) : option (V3 T) :=
-  let n := norm3 O v in if ltb O thr n then Some (vdiv3 v n) else None.
+  let n := norm3 O v in if leb O thr n then Some (vdiv3 v n) else None.
 
-(* vectors.unitvec_norm:  n = np.linalg.norm(v);  if n > 10*_eps: return (v / n, n) else: return None *)
+(* vectors.unitvec_norm:  n = np.linalg.norm(v);  if n >= 10*_eps: return (v / n, n) else: return None *)
 Definition unitvec_norm_m (thr : T) (v : V3 T) : option (V3 T * T) :=
-  let n := norm3 O v in if ltb O thr n then Some (vdiv3 v n, n) else None.
+  let n := norm3 O v in if leb O thr n then Some (vdiv3 v n, n) else None.
 
 (* quaternions.unit(q, tol=10):  nm = np.linalg.norm(q);  if abs(nm) < tol*_eps: raise ValueError;  return q / nm
    None = raises ValueError *)
@@ -87,7 +88,7 @@ Definition angdiff2_m (a b : T) : T := angdiff_p (pi_f O) (a - b).
 
 (* unitvec on a 2-vector (used by trnorm2) *)
 Definition unitvec2_m (thr : T) (v : V2 T) : option (V2 T) :=
-  let n := norm2 v in if ltb O thr n then Some (vdiv2 v n) else None.
+  let n := norm2 v in if leb O thr n then Some (vdiv2 v n) else None.
 
 (* transforms2d.trnorm2 (added by the fix 7bb8ca6):
      a = base.unitvec(T[:2, 1]);  R = np.array([[a[1], a[0]], [-a[0], a[1]]]);  3x3: rt2tr(R, T[:2, 2])
